@@ -63,6 +63,8 @@ class Ed25519Key(PKey):
 
         if filename or file_obj:
             signing_key = self._parse_signing_key_data(data, password)
+            # A private key can verify, too (as the other key classes do).
+            verifying_key = signing_key.verify_key
 
         if signing_key is None and verifying_key is None:
             raise ValueError("need a key")
